@@ -88,6 +88,8 @@ def on_job_done(job, rc, out, err, res):
     if mm:
         res.stat('msan_units_replayed', int(mm.group(1)))
         res.stat('msan_targets_replayed', 1)
+    if 'FZ_STALL_RETRIED' in txt:
+        res.stat('fuzz_runs_repeated_after_machine_stall', 1)
     art = re.search(r'Test unit written to (\S+)', txt)
     case = 'target=%s artifact=%s (re-run: FZ_TARGET=%s build/fuzz/bin/fz_all <artifact>)' % (job.tag, art.group(1) if art else '-', job.tag)
     found = []
